@@ -1503,9 +1503,12 @@ func (w *c12World) deliver(st *c12Station, o *c12Outcome) bool {
 
 // c12Scenario runs the (single-threaded) scenario as one task of a scheduler, so that the
 // registrar's locks are emulated: a lock left held on some path is a deadlock verdict, not a hang.
+var c12Sched *hook.Sched // the scheduler of the current run (the concurrent sub-scenario spawns request tasks)
+
 func c12Scenario(r *sim.Run) {
 	s := hook.Install(r.Tape)
 	defer s.Uninstall()
+	c12Sched = s
 	finished := false
 	s.Spawn("director", func() {
 		c12Body(r)
@@ -1528,6 +1531,10 @@ func c12Body(r *sim.Run) {
 	r.Logf("C12 config: %s", cfg)
 	w := c12NewWorld(r, cfg)
 	if w == nil {
+		return
+	}
+	if tp.Prob("concurrent-requests", 1, 6) {
+		c12Concurrent(r, w, cfg)
 		return
 	}
 	nreq := 1 + tp.Choose("nreq", 4)
@@ -1610,6 +1617,98 @@ func c12Body(r *sim.Run) {
 	sort.Strings(cls[1:])
 	cls = append(cls, fmt.Sprintf("dup=%v reord=%v delay=%v", dups, reordered, delayed))
 	r.Cover(cls...)
+}
+
+// c12Concurrent: two to four clients register at the same time (the API and DNS front ends call the
+// processor from one goroutine per request). Every lock operation of the registrar is a scheduling
+// point. What each client was told must be what was forwarded FOR THAT CLIENT: one message per
+// answered request, carrying that request's shared secret and the response that client received.
+func c12Concurrent(r *sim.Run, w *c12World, cfg *c12Cfg) {
+	tp := r.Tape
+	s := c12Sched
+	s.LockYield, s.UnlockYield = true, true
+	n := 2 + tp.Choose("concurrent-n", 3)
+	type res struct {
+		q    *c12Req
+		resp *pb.RegistrationResponse
+		err  error
+		pan  string
+		done bool
+	}
+	out := make([]*res, n)
+	for i := 0; i < n; i++ {
+		q := c12DrawReq(tp, cfg, i)
+		q.sendFault = false
+		out[i] = &res{q: q}
+		r.Logf("concurrent %s", q)
+	}
+	for i := 0; i < n; i++ {
+		o := out[i]
+		s.Spawn(fmt.Sprintf("creq%d", i), func() {
+			defer func() {
+				if p := recover(); p != nil {
+					o.pan = fmt.Sprintf("%v at %s", p, c12Stack())
+				}
+				o.done = true
+			}()
+			o.resp, o.err = w.p.RegisterBidirectional(o.q.wrapper(false), o.q.method, o.q.clientIP)
+		})
+	}
+	all := func() bool {
+		for _, o := range out {
+			if !o.done {
+				return false
+			}
+		}
+		return true
+	}
+	for k := 0; k < 4 && !all(); k++ {
+		hook.ParkIdle("concurrent-requests")
+	}
+	r.Probe("concurrent_requests")
+	if !all() {
+		r.Fail("C12/deadlock", "concurrent registration requests did not all return: %s", s.WaitForGraph())
+		return
+	}
+	s.LockYield, s.UnlockYield = false, false
+	bySecret := map[string][]*pb.C2SWrapper{}
+	for _, m := range w.sock.msgs {
+		fwd := &pb.C2SWrapper{}
+		if err := proto.Unmarshal(m, fwd); err != nil {
+			r.Fail("C12/forwarded-unparsable", "concurrent requests: %v", err)
+			return
+		}
+		bySecret[string(fwd.GetSharedSecret())] = append(bySecret[string(fwd.GetSharedSecret())], fwd)
+	}
+	answered := 0
+	for i, o := range out {
+		if o.pan != "" {
+			r.Fail("C12/panic/concurrent", "creq%d: %s", i, o.pan)
+			return
+		}
+		fw := bySecret[string(o.q.secret)]
+		if o.err != nil || o.resp == nil {
+			if len(fw) != 0 {
+				r.Fail("C12/concurrent/forwarded-without-answer", "creq%d was refused (%v) but %d message(s) with its secret were forwarded to the stations", i, o.err, len(fw))
+				return
+			}
+			continue
+		}
+		answered++
+		if len(fw) != 1 {
+			r.Fail("C12/concurrent/forwarded-for-wrong-session", "creq%d got a response {%s}, but %d message(s) carrying its shared secret were forwarded to the stations (%d messages in all for %d requests): another client's message went out in its place", i, c12RespStr(o.resp, o.q.tt), len(fw), len(w.sock.msgs), n)
+			return
+		}
+		if d := c12RespDiff(o.resp, fw[0].GetRegistrationResponse()); d != "" {
+			r.Fail("C12/concurrent/client-vs-forwarded/"+d, "creq%d: the response returned to the client {%s} differs from the one inside the message forwarded for it {%s}", i, c12RespStr(o.resp, o.q.tt), c12RespStr(fw[0].GetRegistrationResponse(), o.q.tt))
+			return
+		}
+	}
+	if answered > 0 {
+		r.Nontrivial()
+	}
+	r.CoverU(s.SigHash)
+	r.Cover("concurrent", fmt.Sprint(n, answered))
 }
 
 // c12Statistical: one fixed configuration, enough substitutions that a
